@@ -275,7 +275,7 @@ class WireWorld(World):
               "oversize_sender", "oversize_receiver", "mutated_accepted", "mutated_rejected", "boundary_field",
               "max_boundary_exact", "direct_decode", "ref_built_accepted", "hostile_accepted", "hostile_rejected",
               "sender_bad_key", "sender_str_value", "open_end", "sentinel_read", "large_over_60000",
-              "chunk_overrun_rejected", "reencoded"]
+              "chunk_overrun_rejected", "reencoded", "sweep_cut", "sweep_flip"]
     RULE = ("plan = (COMPRESSION, MAX_MESSAGE_SIZE, correlation id, USE_MSG_WAITALL; 8-16 cases, each a stream of 1-3 "
             "messages with boundary-biased fields + sentinel + transport script (fragmentation seed, errno/short-read "
             "probabilities, truncation offset, mutation list) or a sender-only input); distinct = distinct plan digest / "
@@ -286,8 +286,8 @@ class WireWorld(World):
                    "only byte-format memoryview annotation values are generated",
                    "a caller-supplied FLAGS_COMPRESSED / FLAGS_CORR_ID bit is treated as 'managed by the codec' (10% of messages)",
                    "retryable errnos come in bursts of at most 3; timeouts are not part of this property"]
-    QUICK_RUNS = 9600
-    CHUNK = 200
+    QUICK_RUNS = 24000
+    CHUNK = 250
     SHRINK_LISTS = ["cases"]
 
     # ================================================================ generation
@@ -473,6 +473,17 @@ class WireWorld(World):
         r = rng.random()
         if r < 0.07:
             return self._gen_sender_case(rng, cfg)
+        if r < 0.11:
+            c2 = dict(cfg)
+            if c2["max"] is None or c2["max"] > 400:
+                c2["max"] = 400        # keep swept messages small
+            m = self._gen_ref_msg(rng, c2, False) if rng.random() < 0.2 else self._gen_msg(rng, c2, allow_big=False)
+            if m["pay"]["len"] > 400:
+                m["pay"]["len"] = rng.randint(0, 400)
+            what = "cut" if rng.random() < 0.5 else "flip"
+            return {"k": "sweep", "what": what, "msg": m, "sent": rng.choice(["", "5a", "5059524f"]),
+                    "tr": self._gen_tr(rng, 0), "how": "eof" if rng.random() < 0.8 else "rst",
+                    "mask": rng.choice([1, 2, 4, 8, 16, 32, 64, 128, 0xFF]), "mode": "direct" if rng.random() < 0.2 else "stub"}
         nm = rng.choice([1, 1, 2, 2, 3])
         r2 = rng.random()
         msgs = []
@@ -609,6 +620,8 @@ class WireWorld(World):
             nv = len(ctx.violations)
             if case.get("k") == "sender":
                 self._sender_case(ctx, i, case, cfg)
+            elif case.get("k") == "sweep":
+                self._sweep_case(ctx, i, case, cfg)
             else:
                 self._stream_case(ctx, i, case, cfg)
             if len(ctx.violations) > nv and not self._info_done:
@@ -891,9 +904,9 @@ class WireWorld(World):
         return bytes(buf), first
 
     # ---------------------------------------------------------------- stream case
-    def _stream_case(self, ctx, i, case, cfg):
+    def _build_msgs(self, ctx, i, msgs, cfg):
         raws, exps, specs, hostile = [], [], [], []
-        for spec in case.get("msgs") or []:
+        for spec in msgs or []:
             via = spec.get("via", "sut")
             if via == "sut":
                 raw, exp = self._encode_sut(ctx, i, spec, cfg)
@@ -920,6 +933,38 @@ class WireWorld(World):
                 exps.append(None)
                 hostile.append(True)
             specs.append(spec)
+        return raws, exps, specs, hostile
+
+    def _sweep_case(self, ctx, i, case, cfg):
+        """one message, one fault kind, EVERY offset: truncation after o bytes / flip of byte o"""
+        pre = self._build_msgs(ctx, i, [case["msg"]], cfg)
+        if not pre[0]:
+            return
+        raw = pre[0][0]
+        n = len(raw)
+        h = N.parse_header(raw[:40])
+        dense = min(n, 40 + (h["alen"] if h is not None else 0) + 16)
+        if n <= 200:
+            offs = list(range(n))
+        else:
+            offs = list(range(dense)) + list(range(dense, n, max(1, (n - dense) // 24)))[:24] + [n - 1]
+        tr = dict(case.get("tr") or {})
+        seed = tr.get("seed", 0)
+        what = case.get("what", "cut")
+        ctx.probe("sweep_" + what)
+        for o in offs:
+            tr["seed"] = seed + o
+            sub = {"k": "stream", "msgs": [case["msg"]], "sent": case.get("sent", "5a"), "tr": tr, "mut": [], "cut": None,
+                   "rmax": None, "mode": case.get("mode", "stub")}
+            if what == "cut":
+                sub["cut"] = {"msg": 0, "off": o, "how": case.get("how", "eof")}
+                sub["mode"] = "stub"
+            else:
+                sub["mut"] = [{"op": "flip", "msg": 0, "off": o, "mask": case.get("mask", 1)}]
+            self._stream_case(ctx, i, sub, cfg, pre)
+
+    def _stream_case(self, ctx, i, case, cfg, pre=None):
+        raws, exps, specs, hostile = pre if pre is not None else self._build_msgs(ctx, i, case.get("msgs"), cfg)
         if not raws:
             return
         # receiver limit
